@@ -194,6 +194,13 @@ def abstract_state_run(cfg, bnds, ffi=False):
             ops.append("O")
         elif nm[0] == "X":
             ops.append("X")
+        elif nm[0] == "H":
+            # a precomputed hasher built through the state's own allocator (the first nm[2] events)
+            nb = int(nm[2])
+            built = [e for e in evs[:nb] if e[0] == "A"]
+            shapes = "+".join("%s_%d" % (e[3], e[4]) for e in built) or "-"
+            rings = [e[4] - 9 for e in evs[nb:] if e[0] == "A" and e[3] == "U8"]
+            ops.append("D%s:0:%s:%s" % (nm[1], shapes, "+".join(str(r) for r in rings) if rings else "-"))
         elif nm[0] == "D":
             if evs:
                 rings = [e[4] // ESIZE["U8"] - 9 for e in evs if e[0] == "A" and (e[3] == "U8" or (e[3] == "B" and False))]
@@ -454,6 +461,48 @@ def gen_scenarios(run, thorough):
         "multi n=16 q=11 w=18 in=text:200000:1",
         "multi n=1 q=5 w=18 in=text:1000:1 kind=slice",
     ]
+    sc += [
+        "raw q=5 w=18 in=text:3000:1 dict=text:5000:2 ops=H:3000,S:E:5000:10000,X",
+        "raw q=1 w=18 in=text:3000:1 dict=text:5000:2 ops=H:3000,S:E:5000:10000,X",
+        "raw q=0 w=18 in=text:3000:1 dict=text:5000:2 ops=H:3000,X",
+        "raw q=5 w=10 in=text:3000:1 dict=text:5000:2 ops=H:3000,S:E:5000:10000,X",
+        "raw q=5 w=18 in=text:3000:1 dict=text:5000:2 ops=H:0,S:E:5000:10000,X",
+        "raw q=9 w=18 in=text:3000:1 dict=text:5000:2 ops=H:1,S:E:5000:10000,X",
+        "raw q=5 w=18 in=text:3000:1 dict=text:5000:2 ops=D:100,H:3000,S:E:5000:10000,X",
+        "raw q=11 w=18 in=text:3000:1 dict=text:5000:2 ops=H:3000,D:100,H:0,X",
+    ]
+    # shared (precomputed) hashers: every quality class x inputs that are tiny relative to the number of jobs
+    grid_n = (2, 3, 5) if thorough else (2, 3)
+    for n in grid_n:
+        for q in (0, 1, 5, 9, 11):
+            for ln in sorted({0, 1, 2, 3, 4, n, 2 * n + 1, 1000}):
+                if not thorough and ln in (2, 2 * n + 1) and q not in (0, 5):
+                    continue
+                sc.append("multi n=%d q=%d w=18 favor=1 in=text:%d:%d out=4194304 kind=%s" %
+                          (n, q, ln, rng.randrange(1, 99), rng.choice(["owned", "slice", "pool"])))
+    for (n, q, ln) in ((16, 5, 4), (16, 1, 17), (16, 5, 1000), (8, 0, 3)):
+        sc.append("multi n=%d q=%d w=18 favor=1 in=text:%d:3 out=4194304 kind=owned" % (n, q, ln))
+    for (n, q, ln, cu) in ((2, 0, 3000, 1), (3, 1, 4, 1), (3, 5, 4, 1), (2, 1, 1000, 0), (5, 5, 3, 1), (2, 5, 30000, 1)):
+        sc.append("ffimulti custom=%d n=%d q=%d w=18 favor=1 pool=%d in=text:%d:5 out=4194304" % (cu, n, q, rng.choice([0, 1]), ln))
+    # copy adapter: a fault on the source side at read i and a fault on the sink side at write j, all i x j
+    for q in ((1, 5, 11) if thorough else (1, 5)):
+        for i in range(0, 4):
+            for j in range(0, 4):
+                for sink in ("e", "z"):
+                    if sink == "z" and (i + j) % 2 and not thorough:
+                        continue
+                    sc.append("copy q=%d w=18 in=text:30000:%d ibuf=4096 obuf=64 rio=%s wio=%s" %
+                              (q, rng.randrange(1, 99), ",".join(["4096"] * i + ["e"]), ",".join(["64"] * j + [sink])))
+    for j in range(0, 6):
+        sc.append("copy q=5 w=18 in=text:30000:4 dict=text:300:4 ibuf=1 obuf=1 rio=- wio=%s" % ",".join(["1"] * (j * 7) + ["e"]))
+        sc.append("copy q=9 w=18 in=text:30000:4 ibuf=512 obuf=16 rio=%s wio=-" % ",".join(["512"] * (j * 5) + ["e"]))
+    # writer / reader: the wrapped stream fails at its k-th call
+    for q in (1, 5):
+        for k in range(0, 6):
+            sc.append("writer q=%d w=18 in=text:70000:%d obuf=64 wio=%s ops=W:20000,L,W:30000,Z" % (q, k + 1, ",".join(["64"] * k + ["e"])))
+            sc.append("writer q=%d w=18 in=text:70000:%d obuf=4096 wio=%s ops=W:70000,I" % (q, k + 1, ",".join(["4096"] * k + ["e"])))
+            sc.append("reader q=%d w=18 in=text:70000:%d ibuf=4096 rio=%s ops=R:1000,A:4096,Z" % (q, k + 1, ",".join(["4096"] * k + ["e"])))
+            sc.append("reader q=%d w=18 in=text:70000:%d ibuf=256 rio=%s ops=A:100,I" % (q, k + 1, ",".join(["256"] * (3 * k) + ["e", "256", "e"])))
     # raw encoder instances
     for _ in range(110 * mult):
         cfg = gen_cfg(rng)
@@ -464,9 +513,9 @@ def gen_scenarios(run, thorough):
         if rng.random() < 0.3 and not cfg.get("log"):
             dl = rng.choice([0, 1, 2, 100, 5000, 70000])
             extra = " dict=text:%d:%d" % (dl, rng.randrange(1, 99))
-            ops.append("D:%d" % dl)
+            ops.append("%s:%d" % ("H" if rng.random() < 0.35 else "D", dl))
             if rng.random() < 0.15:
-                ops.append("D:%d" % max(0, dl // 2))
+                ops.append("%s:%d" % ("H" if rng.random() < 0.35 else "D", max(0, dl // 2)))
         if rng.random() < 0.1 and cfg["q"] >= 2 and "mode" not in cfg and not extra:
             cfg["log"] = 1
         fin = rng.random() < 0.7
@@ -539,8 +588,11 @@ def gen_scenarios(run, thorough):
             wio = [rng.choice(["1", "7", "100"]) for _ in range(rng.randrange(0, 6))] + ["e"]
         elif r < 0.5:
             rio = [rng.choice(["1", "100", "4096"]) for _ in range(rng.randrange(0, 6))] + ["e"]
-        elif r < 0.7:
+        elif r < 0.65:
             wio = [rng.choice(["1", "7", "100"]) for _ in range(rng.randrange(1, 20))]
+        elif r < 0.85:
+            rio = [rng.choice(["1", "100", "4096"]) for _ in range(rng.randrange(0, 6))] + ["e"]
+            wio = [rng.choice(["1", "7", "100"]) for _ in range(rng.randrange(0, 6))] + [rng.choice(["e", "e", "z"])]
         sc.append("copy %s in=%s%s ibuf=%d obuf=%d wio=%s rio=%s" % (cfg_str(cfg), inp, extra, rng.choice([1, 64, 4096, 65536]),
                   rng.choice([1, 64, 4096]), ",".join(wio) if wio else "-", ",".join(rio) if rio else "-"))
     # one-shot
@@ -555,7 +607,7 @@ def gen_scenarios(run, thorough):
             q = rng.choice([0, 1, 2, 5, 5, 6, 7, 9, 10, 11]) if rep else rng.choice([5, 9])
             w = rng.choice([18, 20, 22])
             ln = rng.choice([0, 5, 1000, 30000, 100000, 200000])
-            favor = 1 if (rng.random() < 0.5 and 5 <= q <= 9 and ln >= 30000) else 0
+            favor = 1 if rng.random() < 0.45 else 0
             if q >= 10:
                 ln = min(ln, 100000)
             out = rng.choice([0, 100, 1 << 22, 1 << 22, 1 << 22])
@@ -566,9 +618,9 @@ def gen_scenarios(run, thorough):
         n = rng.choice([1, 1, 2, 3, 5, 8, 16, 20])
         q = rng.choice([0, 1, 2, 5, 6, 9, 11])
         ln = rng.choice([0, 35, 3000, 100000])
-        sc.append("ffimulti custom=%d n=%d q=%d w=%d pool=%d in=text:%d:%d out=%d" %
-                  (rng.choice([1, 1, 0]), n, q, rng.choice([18, 22]), rng.choice([0, 0, 1]), ln, rng.randrange(1, 99),
-                   rng.choice([10, 1 << 22, 1 << 22])))
+        sc.append("ffimulti custom=%d n=%d q=%d w=%d favor=%d pool=%d in=text:%d:%d out=%d" %
+                  (rng.choice([1, 1, 0]), n, q, rng.choice([18, 22]), rng.choice([0, 0, 1]), rng.choice([0, 0, 1]), ln,
+                   rng.randrange(1, 99), rng.choice([10, 1 << 22, 1 << 22])))
     return sc
 
 
@@ -614,9 +666,13 @@ def model_request(req, bnds, ver):
     if cmd == "copy":
         res = bnds[0]["ret"].split(":")[0]
         wio, rio = req.get("wio", "-"), req.get("rio", "-")
+        flags = bnds[0]["ret"]
+        re_, we_, wz_ = ":re1" in flags, ":we1" in flags, ":wz1" in flags
         ex = "f"
-        if res != "fin" and "e" in wio.split(",") and "e" not in rio.split(","):
-            ex = "w"
+        if we_:
+            ex = "wp" if re_ else "w"
+        elif wz_:
+            ex = "zp" if re_ else "z"
         dl = int(req.get("dict", "text:0:1").split(":")[1])
         d = ";D%d:0:-:%s" % (dl, str(dl) if (dl >= 2 and sq >= 2) else "-") if dl else ""
         return ["M ver=%s kind=copy exit=%s H=%s%s;%s" % (ver, ex, pops, d, generic_stream(sq, w, inlen))], [(0, "final")], [], 0
@@ -889,6 +945,34 @@ def classify(line, bnds):
             tags.add("dropped-without-destroy")
         if not any(o.startswith("S:E") for o in opsl):
             tags.add("destroyed-before-finish")
+    if req["cmd"] == "copy":
+        fl = bnds[0]["ret"]
+        if ":re1" in fl and ":we1" in fl:
+            tags.add("copy:sink-error-while-source-error-pending")
+        elif ":re1" in fl and ":wz1" in fl:
+            tags.add("copy:sink-zero-while-source-error-pending")
+        elif ":we1" in fl:
+            tags.add("copy:sink-error")
+        elif ":wz1" in fl:
+            tags.add("copy:sink-accepts-nothing")
+        elif ":re1" in fl:
+            tags.add("copy:source-error")
+    if req["cmd"] == "raw":
+        for b in bnds:
+            nm = b["name"].split(":")
+            if nm[0] == "H":
+                sn = b["snap"]
+                tags.add("precomputed-hasher-op")
+                if sn["cat"] and not num(req, "cat", 0) and not sn["rb"]:
+                    tags.add("precomputed-hasher:dictionary-ignored")
+                elif any(e[0] == "F" for e in b["ev"][:int(nm[2]) + 3]):
+                    tags.add("precomputed-hasher:discarded-for-cut-dictionary")
+    if req["cmd"] in ("multi", "ffimulti") and num(req, "favor", 0) and num(req, "n", 1) >= 2:
+        inl = int(req.get("in", "text:0:1").split(":")[1])
+        if num(req, "q", 5) <= 1:
+            tags.add("shared-hasher:quality-0-1")
+        if inl // max(1, min(16, num(req, "n", 1))) <= 1:
+            tags.add("shared-hasher:job-with-empty-or-one-byte-prefix")
     if req["cmd"] in ("writer", "reader", "copy"):
         if "e" in req.get("wio", "-").split(",") or "e" in req.get("rio", "-").split(","):
             tags.add("io-error-scripted")
@@ -999,6 +1083,10 @@ def check(run):
     wanted = ["ring-buffer-regrown", "storage-regrown", "commands-regrown", "large-table", "q1-buffers-retained", "zopfli-nodes",
               "custom-dictionary", "dictionary-replaces-live-hasher", "precomputed-hashers", "metadata-op", "io-error-returned",
               "destroyed-before-finish", "dropped-without-destroy", "multi-error-return", "oneshot-failed", "hasher:H10", "hasher:H9",
+              "copy:sink-error-while-source-error-pending", "copy:sink-zero-while-source-error-pending", "copy:sink-error",
+              "copy:sink-accepts-nothing", "copy:source-error", "precomputed-hasher:dictionary-ignored",
+              "precomputed-hasher:discarded-for-cut-dictionary", "shared-hasher:quality-0-1",
+              "shared-hasher:job-with-empty-or-one-byte-prefix",
               "hasher:H54", "hasher:H2", "hasher:H6", "threads:16", "threads:1"]
     run.cov["unreached"] = [t for t in wanted if t not in hist]
     run.cov["samples"] = [scen[0], scen[len(scen) // 3], scen[len(scen) // 2], scen[-1]]
